@@ -2,6 +2,7 @@ package eng
 
 import (
 	"context"
+	"errors"
 	"fmt"
 	"math/rand"
 	"os"
@@ -243,6 +244,9 @@ func (s *soak) oneCall(rng *rand.Rand) {
 	switch {
 	case m == "RPC":
 		rep, err := s.cl.Node(node).RPC(ctx, req)
+		if err != nil && ctx.Err() == nil && (errors.Is(err, context.Canceled) || errors.Is(err, context.DeadlineExceeded)) {
+			st.bad(fmt.Sprintf("RPC call %d to node %d failed with %q although its own context has not ended (the error of another call)", tok, s.cl.IDs[node], err))
+		}
 		if err == nil && (rep.GetCall() != tok || rep.GetNode() != s.cl.IDs[node] || rep.GetDigest() != h.Digest(req)) {
 			st.bad(fmt.Sprintf("RPC call %d to node %d returned a reply to call %d from node %d", tok, s.cl.IDs[node], rep.GetCall(), rep.GetNode()))
 		}
@@ -256,7 +260,7 @@ func (s *soak) oneCall(rng *rand.Rand) {
 		cfg.MultiPN(ctx, req, f, co...)
 	case strings.HasPrefix(m, "QC"):
 		o := CallQC(cfg, m, ctx, req, f)
-		s.checkErrText(m, tok, o.Err, len(want), false)
+		s.checkErrText(m, tok, o.Err, len(want), false, ctx.Err() == nil)
 		if o.Err == nil && o.Rep != nil && o.Rep.GetCall() != tok {
 			st.bad(fmt.Sprintf("%s call %d returned the value of call %d", m, tok, o.Rep.GetCall()))
 		}
@@ -265,7 +269,7 @@ func (s *soak) oneCall(rng *rand.Rand) {
 		}
 	case strings.HasPrefix(m, "Async"):
 		o := StartAsync(cfg, m, ctx, req, f).Get()
-		s.checkErrText(m, tok, o.Err, len(want), false)
+		s.checkErrText(m, tok, o.Err, len(want), false, ctx.Err() == nil)
 		if o.Err == nil && o.Rep != nil && o.Rep.GetCall() != tok {
 			st.bad(fmt.Sprintf("%s call %d returned the value of call %d", m, tok, o.Rep.GetCall()))
 		}
@@ -273,12 +277,12 @@ func (s *soak) oneCall(rng *rand.Rand) {
 		c := StartCorr(cfg, m, ctx, req, f)
 		<-c.Done()
 		_, _, cerr := c.Raw()
-		s.checkErrText(m, tok, cerr, len(want), stream)
+		s.checkErrText(m, tok, cerr, len(want), stream, ctx.Err() == nil)
 	}
 }
 
 // checkErrText applies the at-most-once-per-node rule to a quorum call error.
-func (s *soak) checkErrText(m string, tok uint64, err error, targeted int, stream bool) {
+func (s *soak) checkErrText(m string, tok uint64, err error, targeted int, stream bool, live bool) {
 	if err == nil {
 		return
 	}
@@ -287,6 +291,12 @@ func (s *soak) checkErrText(m string, tok uint64, err error, targeted int, strea
 		return
 	}
 	for id, lines := range pe.Nodes {
+		for _, l := range lines {
+			// the library reports a context's own error (not a gRPC status) for a node only when the request's context ended
+			if live && (l == context.Canceled.Error() || l == context.DeadlineExceeded.Error()) {
+				s.st.bad(fmt.Sprintf("%s call %d: node %d failed with %q although the call's own context has not ended (the error of another call)", m, tok, id, l))
+			}
+		}
 		if len(lines) > 1 && !stream {
 			s.st.bad(fmt.Sprintf("%s call %d: node %d contributed %d errors to one call: %v", m, tok, id, len(lines), lines))
 		}
@@ -400,15 +410,21 @@ func RunSoakAttribution(e *Env) {
 			continue
 		}
 		t := h.Go("soak", func() { s.run(rng.Int63()) })
-		hi := h.Await(t, 4*time.Minute)
+		hi := h.Await(t, e.PickD(90*time.Second, 4*time.Minute))
 		s.teardownGates()
+		st := s.st
 		if hi.Verdict != h.Returned {
+			// what the online oracle saw before the soak got stuck still counts; the lack of progress itself is C09's subject
+			if st.misattributed.Load() > 0 {
+				R.Violate("misattributed-reply", fmt.Sprintf("%d misattributed / duplicated replies (the soak then stopped making progress: %s); first: %s", st.misattributed.Load(), hi.Sig, *st.firstBad.Load()), map[string]any{"soak": o})
+				s.cl.Close()
+				return // (every further soak would wait out the same lack of progress)
+			}
 			R.Inconc("soak did not finish (foreign: progress): " + hi.Sig + fmt.Sprint(hi.Others))
 			s.cl.Close()
 			continue
 		}
 		time.Sleep(30 * time.Millisecond) // late replies of ended calls arrive now
-		st := s.st
 		if st.misattributed.Load() > 0 {
 			R.Violate("misattributed-reply", fmt.Sprintf("%d misattributed / duplicated replies; first: %s", st.misattributed.Load(), *st.firstBad.Load()), map[string]any{"soak": o})
 		}
